@@ -1468,7 +1468,8 @@ impl Property for C10 {
         let mut o = Outcome::ok();
         // the same history with the operation futures polled late: after an acknowledgement
         // only the context runs; the futures run at the next (settled) start
-        if out.failures.is_empty() {
+        // (not for the 65 536-publish histories of the thorough tier: one run of those takes minutes)
+        if out.failures.is_empty() && case.events.len() < 20_000 {
             let lazy = Scenario {
                 events: case
                     .events
